@@ -23,7 +23,7 @@ ID = "C07"
 RULE = (
     "Generated: instance (all shapes incl. flexible, zero durations) x "
     "composition of 1-4 built-in filters (each spelled as string, enum member "
-    "or function; optionally nested - a composition used as a member of another) installed in the dispatcher x choice sequence (each step "
+    "or function; optionally nested - a composition used as a member of another; the caller may go on editing the list it passed) installed in the dispatcher x choice sequence (each step "
     "among available or among all ready operations); in EVERY state along the "
     "history, for every non-empty sub-list L of the ready operations (all "
     "subsets when <=4 ready, else the full list plus generated masks) each of "
@@ -205,6 +205,13 @@ def check_case(case, ctx):
         members = [head] + tail
         ctx.label("nested_composition")
     composite = create_composite_operation_filter(members)
+    if len(history) % 2:
+        # the caller goes on using its own list (to derive a stricter
+        # pipeline); the composition built before is not affected
+        members.append("non_immediate_operations")
+        members.reverse()
+        create_composite_operation_filter(members)
+        ctx.label("callers_list_edited")
     for n, h in comp:
         ctx.check(
             ready_operations_filter_factory(spell(n, h)) is FUNCS[n],
